@@ -785,7 +785,9 @@ class ExprMixin:
             ci = self.as_inst(x) if x.kind != "inst" else None
             if ci is not None:
                 j = self.node("maybe_child", preds, what="compare", value=x)
+                self._child_dispatch = True
                 rv, o = self.call_method(ci, dd, [other], {}, j)
+                self._child_dispatch = False
                 preds = set(j) | set(o)
                 break
         return Val("cmp", sym, a, b), preds
@@ -886,9 +888,12 @@ class ExprMixin:
         ca = cattr_origin(base)
         if ca is not None:
             name = ca.args[1]
-            o = self.node("cs_read", preds, may_raise=True, exc=("KeyError",), name=name, op="getitem", cls=ca.args[0], target=base, index=idx)
             if name in self.lock_tables() and base.kind == "cattr":
+                # the lookup cannot fail as long as the lock table only grows,
+                # which rule C10.d checks separately
+                o = self.node("cs_read", preds, name=name, op="getitem", cls=ca.args[0], target=base, index=idx)
                 return Val("lock", name, idx), o
+            o = self.node("cs_read", preds, may_raise=True, exc=("KeyError",), name=name, op="getitem", cls=ca.args[0], target=base, index=idx)
             return Val("sub", base, idx), o
         if k in ("param", "kwargs", "const"):
             o = self.node("sub_read", preds, may_raise=True, exc=("KeyError", "IndexError", "TypeError"), base=base, index=idx)
@@ -1293,7 +1298,9 @@ class ExprMixin:
             d = data_origin(recv)
             if d is not None:
                 j = self.node("maybe_child", preds, what="call:" + name, value=recv)
+                self._child_dispatch = True
                 rv, o = self.call_method(ci, name, args, kwargs, j)
+                self._child_dispatch = False
                 return rv, o
             return self.call_method(ci, name, args, kwargs, preds)
         if ca is not None:
@@ -1367,10 +1374,12 @@ class ExprMixin:
                 owner, v = self.model.lookup(c, "__eq__", after=after)
             groups.setdefault(id(v), [v, owner, []])[2].append(c)
         vals, outs = [], set()
+        via_child = getattr(self, "_child_dispatch", False)
         for v, owner, cs in groups.values():
             ninst = Val("inst", tuple(cs), inst.args[1], inst.args[2])
             if isinstance(v, Method):
                 f = v.func
+                self._child_dispatch = via_child
                 if f.kind == "classmethod":
                     rv, o = self.call_function_d(f, Val("cls", tuple(cs)), args, kwargs, preds, owner)
                 elif f.kind == "staticmethod":
